@@ -22,6 +22,16 @@ class SNum:
         return f"SNum({self.term}, pyint={self.pyint})"
 
 
+class RangedIndex(SNum):
+    """An int produced by enumerate() over a symbolic-length list: 0 <= term < length holds
+    wherever the element function that mentions it is used."""
+    __slots__ = ("length",)
+
+    def __init__(self, term, length):
+        SNum.__init__(self, term, True)
+        self.length = length
+
+
 class SName:
     """A string used as a variable / coordinate name (uninterpreted)."""
     __slots__ = ("term",)
